@@ -87,7 +87,12 @@ def Mono.eval (m : Mono) (wdash h rij : Rat) (x : List Rat) : Rat :=
 
 /-! ## executable checks on a table (all over `Rat`) -/
 
-/-- pieces are consecutive: `lo₀ = L`, `loᵢ < hiᵢ = loᵢ₊₁` -/
+/-- pieces are consecutive: `lo₀ = L`, `loᵢ < hiᵢ = loᵢ₊₁`.  The translator
+emits a degenerate piece `[b, b]` (closed) when the source treats the single
+point `q = b` unlike both neighbouring intervals (e.g. `if q < 1 … elif q > 1`):
+`lookup` then reproduces the code at `q = b`, and this check — hence
+`table_wellformed` — fails, as it must: the pieces no longer cover `[0, radius)`
+by proper intervals. -/
 def chain (L : Rat) : List Piece → Bool
   | [] => true
   | p :: ps => (p.lo == L) && decide (p.lo < p.hi) && chain p.hi ps
